@@ -63,7 +63,21 @@ fn vi(i: usize, len: usize) -> V {
 #[derive(Clone, Debug, Serialize, Deserialize)]
 pub enum HSub {
     Data { reader: u8, writer: u8, sn: V, flags: u8, otq: V, qos: Vec<(u16, Vec<u8>)>, payload: HPayload },
-    DataFrag { reader: u8, writer: u8, sn: V, flags: u8, frag_start: V, frags: V, frag_size: V, data_size: V, payload_len: u8 },
+    DataFrag {
+        reader: u8,
+        writer: u8,
+        sn: V,
+        flags: u8,
+        frag_start: V,
+        frags: V,
+        frag_size: V,
+        data_size: V,
+        payload_len: u8,
+        /// exact (fragmentStartingNum, fragmentsInSubmessage, fragmentSize, sampleSize) overriding the classes:
+        /// constructed cases whose claimed fragment counts add up to ceil(sampleSize / fragmentSize)
+        #[serde(default)]
+        exact: Option<(u32, u16, u16, u32)>,
+    },
     Heartbeat { reader: u8, writer: u8, first: V, last: V, count: V, flags: u8 },
     HeartbeatFrag { reader: u8, writer: u8, sn: V, last_frag: V, count: V },
     AckNack { reader: u8, writer: u8, base: V, num_bits: V, words: u8, count: V, flags: u8 },
@@ -120,7 +134,7 @@ fn sub_strategy() -> BoxedStrategy<HSub> {
         4 => (e(), e(), v(), any::<u8>(), prop_oneof![4 => Just(vi(5, U16S.len())), 1 => v()], prop::collection::vec((any::<u16>(), prop::collection::vec(any::<u8>(), 0..20)), 0..3), payload_strategy())
             .prop_map(|(reader, writer, sn, flags, otq, qos, payload)| HSub::Data { reader, writer, sn, flags, otq, qos, payload }),
         4 => (e(), e(), v(), any::<u8>(), v(), v(), v(), v(), any::<u8>())
-            .prop_map(|(reader, writer, sn, flags, frag_start, frags, frag_size, data_size, payload_len)| HSub::DataFrag { reader, writer, sn, flags, frag_start, frags, frag_size, data_size, payload_len }),
+            .prop_map(|(reader, writer, sn, flags, frag_start, frags, frag_size, data_size, payload_len)| HSub::DataFrag { reader, writer, sn, flags, frag_start, frags, frag_size, data_size, payload_len, exact: None }),
         3 => (e(), e(), v(), v(), v(), any::<u8>()).prop_map(|(reader, writer, first, last, count, flags)| HSub::Heartbeat { reader, writer, first, last, count, flags }),
         1 => (e(), e(), v(), v(), v()).prop_map(|(reader, writer, sn, last_frag, count)| HSub::HeartbeatFrag { reader, writer, sn, last_frag, count }),
         3 => (e(), e(), v(), v(), 0u8..10, v(), any::<u8>()).prop_map(|(reader, writer, base, num_bits, words, count, flags)| HSub::AckNack { reader, writer, base, num_bits, words, count, flags }),
@@ -217,6 +231,7 @@ pub fn systematic(thorough: bool, seed: u64, quota: usize) -> Vec<C06Case> {
                                 frag_size: u16_of(frag_size),
                                 data_size: u32_of(data_size),
                                 payload_len: 8,
+                                exact: None,
                             }]);
                         }
                     }
@@ -258,6 +273,44 @@ pub fn systematic(thorough: bool, seed: u64, quota: usize) -> Vec<C06Case> {
     }
     let dg = |subs: &Vec<HSub>, be: bool| (Hostile::Structured { prefix: 0, big_endian: be, version: (2, 4), subs: subs.clone() }, 0u16);
     let mut cases = vec![];
+    // DATA_FRAG groups that claim to complete a sample far larger than what is sent: the claimed
+    // fragmentsInSubmessage add up to ceil(sampleSize / fragmentSize), one of them starts at fragment 1,
+    // sequence number = the next one the victim's reader expects from the peer (4 after the three warm-up
+    // samples; 5..7 too). One group per case, followed by a heartbeat.
+    let mut completing = vec![];
+    for data_size in [65_536u32, 1 << 20, 1 << 30, u32::MAX] {
+        for frag_size in [1u16, 8, 1344, 65_535] {
+            let total = (data_size as u64).div_ceil(frag_size as u64);
+            if total > 2 * 65_535 {
+                continue;
+            }
+            for sn in [4i64, 5] {
+                let mk = |start: u32, frags: u16| HSub::DataFrag {
+                    reader: 1,
+                    writer: 0,
+                    sn: i64_of(sn),
+                    flags: 0,
+                    frag_start: u32_of(1),
+                    frags: u16_of(1),
+                    frag_size: u16_of(8),
+                    data_size: u32_of(31),
+                    payload_len: 16,
+                    exact: Some((start, frags, frag_size, data_size)),
+                };
+                let mut group = vec![];
+                if total <= 65_535 {
+                    group.push(vec![mk(1, total as u16)]);
+                } else {
+                    group.push(vec![mk(1, 65_535)]);
+                    group.push(vec![mk(65_536, (total - 65_535) as u16)]);
+                }
+                group.push(vec![HSub::Heartbeat { reader: 1, writer: 0, first: i64_of(1), last: i64_of(8), count: counts[7], flags: 0 }]);
+                completing.push(group);
+            }
+        }
+    }
+    // always evaluated (not subject to the quick tier's sampling)
+    let always: Vec<C06Case> = completing.iter().map(|g| C06Case { frag: 1344, datagrams: g.iter().map(|s| dg(s, false)).collect() }).collect();
     for chunk in counted.chunks(8) {
         // counts ascend with the position in the chunk only if the chunk starts at a multiple of 8
         cases.push(C06Case { frag: 1344, datagrams: chunk.iter().map(|s| dg(s, false)).collect() });
@@ -273,7 +326,8 @@ pub fn systematic(thorough: bool, seed: u64, quota: usize) -> Vec<C06Case> {
     // seeded order; the quick tier takes the first `quota`
     let mut keyed: Vec<(u64, C06Case)> = cases.into_iter().enumerate().map(|(i, c)| (vcore::mix(seed, "systematic", i as u64), c)).collect();
     keyed.sort_by_key(|(k, _)| *k);
-    keyed.into_iter().take(quota).map(|(_, c)| c).collect()
+    let rest = quota.saturating_sub(always.len());
+    always.into_iter().chain(keyed.into_iter().take(rest).map(|(_, c)| c)).collect()
 }
 
 /// simpler variants of a failing constructed case: each datagram alone, then each one removed
@@ -404,16 +458,17 @@ fn encode_sub(s: &HSub, be: bool, cx: &Ctx6) -> Vec<u8> {
             e.bytes(&payload_bytes(payload, cx));
             (wire::DATA, flags & 0x0e, None)
         }
-        HSub::DataFrag { reader, writer, sn, flags, frag_start, frags, frag_size, data_size, payload_len } => {
+        HSub::DataFrag { reader, writer, sn, flags, frag_start, frags, frag_size, data_size, payload_len, exact } => {
             e.u16(0);
             e.u16(28);
             e.bytes(&eid(*reader));
             e.bytes(&eid(*writer));
             e.i64sn(sn.i64());
-            e.u32(frag_start.u32());
-            e.u16(frags.u16());
-            e.u16(frag_size.u16());
-            e.u32(data_size.u32());
+            let (a, b, c, d) = exact.unwrap_or((frag_start.u32(), frags.u16(), frag_size.u16(), data_size.u32()));
+            e.u32(a);
+            e.u16(b);
+            e.u16(c);
+            e.u32(d);
             if flags & 2 != 0 {
                 params(&mut e, &[], true);
             }
@@ -841,7 +896,7 @@ pub fn main(ctx: &Ctx) {
             max_shrink_iters: 60,
             limits: Limits { cpu_s: 6, wall_s: 90, as_bytes: 4 << 30 },
             meta: Meta {
-                rule: "two parts, same scenario and oracle. (a) constructed: every product of the adversarial value classes of the numeric fields of HEARTBEAT, HEARTBEAT_FRAG, DATA (+ trailing INFO_TS), DATA_FRAG (reduced classes), GAP, ACKNACK and NACK_FRAG sent in the peer's name to the matched user endpoints, 8-16 products per case (quick: a seeded 500-case subset, thorough: all, also big-endian and to ENTITYID_UNKNOWN); (b) generated: a victim participant with a reliable TRANSIENT_LOCAL writer and reader matched to a well-behaved peer receives 1-19 hostile datagrams interleaved with normal traffic: random bytes, captured valid datagrams with byte edits/truncation, or structured RTPS messages (all submessage kinds, both byte orders) with adversarial sequence numbers, set sizes (numBits up to 2^32-1), fragment numbers/sizes (0), counts, declared lengths, inline QoS and payloads (mutated captured discovery/user payloads), addressed to matched user endpoints and builtin endpoints and optionally spoofing the peer's GUID prefix; oracle: no panic in any task, CPU <= 6 s (hang), no single allocation > 256 MiB, heap growth <= 1024*bytes + 8 MiB, afterwards get_qos answers and a never-spoofed newcomer matches and exchanges a fresh sample with the victim in both directions; non-trivial = a structured message claimed the peer's prefix and addressed an existing endpoint, or a mutated captured datagram still parsed; distinct = hash of the case",
+                rule: "two parts, same scenario and oracle. (a) constructed: every product of the adversarial value classes of the numeric fields of HEARTBEAT, HEARTBEAT_FRAG, DATA (+ trailing INFO_TS), DATA_FRAG (reduced classes), GAP, ACKNACK and NACK_FRAG sent in the peer's name to the matched user endpoints, 8-16 products per case (quick: a seeded 500-case subset, thorough: all, also big-endian and to ENTITYID_UNKNOWN), plus 22 DATA_FRAG groups whose claimed fragment counts add up to a sample of 64 KiB - 4 GiB while a few bytes are sent; (b) generated: a victim participant with a reliable TRANSIENT_LOCAL writer and reader matched to a well-behaved peer receives 1-19 hostile datagrams interleaved with normal traffic: random bytes, captured valid datagrams with byte edits/truncation, or structured RTPS messages (all submessage kinds, both byte orders) with adversarial sequence numbers, set sizes (numBits up to 2^32-1), fragment numbers/sizes (0), counts, declared lengths, inline QoS and payloads (mutated captured discovery/user payloads), addressed to matched user endpoints and builtin endpoints and optionally spoofing the peer's GUID prefix; oracle: no panic in any task, CPU <= 6 s (hang), no single allocation > 256 MiB, heap growth <= 1024*bytes + 8 MiB, afterwards get_qos answers and a never-spoofed newcomer matches and exchanges a fresh sample with the victim in both directions; non-trivial = a structured message claimed the peer's prefix and addressed an existing endpoint, or a mutated captured datagram still parsed; distinct = hash of the case",
                 assumptions: &[
                     "deterministic simulation; datagrams are injected straight into the victim's receive path",
                     "harness built with overflow-checks on (as every debug build of dust-dds): an arithmetic overflow is a panic",
